@@ -124,6 +124,50 @@ def run(ctx):
                               "%s:%d" % (m["file"], arms[idx[0]]["line"]))
             else:
                 ctx.ok("R2", key, "sets word_space and char_space")
+    # R2b sibling cross-check of the emission guards: a condition atom (option flag / state field)
+    # that guards the glyph emission in at least three of the four show-text arms must guard it in
+    # the fourth as well (deviant-sibling rule)
+    g = CF.cfg(fn)
+    fl = FL.flow(fn)
+    sig = {}
+    for v in SHOW:
+        idx = byv.get(CO + v, [])
+        if not idx:
+            continue
+        lo, hi = arm_range[idx[0]]
+        atoms = set()
+        outside = [b for b in range(len(fn.blocks)) if not (lo <= fn.line(b) < hi) and b in g.live()]
+        for b, c, args, d in L.calls_to(fn, ["text::extraction::emit_text_fragment"]):
+            if not (lo <= fn.line(b) < hi):
+                continue
+            # immediate guards: walk predecessors of the call through straight-line blocks until switches
+            seenb = set()
+            work = [b]
+            while work:
+                x = work.pop()
+                for pb in g.pred[x]:
+                    if pb in seenb or not (lo <= fn.line(pb) < hi):
+                        continue
+                    seenb.add(pb)
+                    t = fn.term(pb)
+                    if t[0] == "sw":
+                        atoms |= set(a for a in L.cond_atoms(fn, t[1]) if not a.startswith("param:"))
+                    else:
+                        work.append(pb)
+        sig[v] = atoms
+    if ctx.floor("R2", "show-text arms with an emission guard signature", len([v for v in sig if sig[v]]), 4):
+        allatoms = set().union(*sig.values())
+        for atom in sorted(allatoms):
+            have = [v for v in sig if atom in sig[v]]
+            miss = [v for v in sig if atom not in sig[v]]
+            if len(have) >= 3 and len(miss) == 1:
+                v = miss[0]
+                ctx.violation("R2", "show-arm:%s:guard-atom:%s" % (v, atom), "the glyph emission in the %s arm is not conditioned on `%s` "
+                              "while its three sibling show-text arms are: text shown with this operator is handled differently "
+                              "(dropped or duplicated) in the situations that flag distinguishes" % (v, atom),
+                              "%s:%d" % (m["file"], arms[byv[CO + v][0]]["line"]), {"siblings_with_atom": have})
+            elif len(have) == 4:
+                ctx.ok("R2", "show-arms:guard-atom:%s" % atom, "all four arms agree")
     # R3 snapshot pairing
     adt = facts.adts.get("text::extraction::SavedGraphicsState")
     cap = ctx.fn("text::extraction::SavedGraphicsState::capture", "R3")
